@@ -14,6 +14,10 @@ def _worker(task):
         from .entries import make_interp, run_gcode
         model = Model()
         I = make_interp(model, unroll=opts.get('unroll', 1), debug_logging=opts.get('debug_logging', False))
+        if opts.get('plain'):
+            # second evaluation strategy: no path merging, no loop summaries (must agree with the default one)
+            I.merge_ifs = False
+            I.summarise_loops = False
         mod = importlib.import_module(modname)
         prep = getattr(mod, opts['prep']) if opts.get('prep') else None
         t0 = time.time()
@@ -30,8 +34,18 @@ def _worker(task):
         return ('analysis-error', gcode, 'internal error: %s\n%s' % (ex, traceback.format_exc()))
 
 
+CHEAP = ('G0', 'G10', 'G11', 'G20', 'G21', 'G28', 'G90', 'G91', 'G92', 'M206', 'M999')
+
+
 def run_path_rules(ctx, modname, fnname, gcodes, **opts):
+    if ctx.tier == 'thorough':
+        opts = dict(opts, unroll=max(2, opts.get('unroll', 1)), debug_logging=True)
     tasks = [(ctx.prop, modname, fnname, g, opts) for g in gcodes]
+    if ctx.tier == 'thorough':
+        plain = dict(opts, plain=True, unroll=1, debug_logging=False)
+        tasks += [(ctx.prop, modname, fnname, g, plain) for g in gcodes if g in CHEAP]
+        ctx.notes.append('thorough: region/loop unrolling depth 2, debug-logging branches explored, and the handlers %s '
+                         're-evaluated without path merging / loop summaries' % ', '.join(g for g in gcodes if g in CHEAP))
     jobs = min(len(tasks), int(os.environ.get('VERIF_JOBS', '0')) or multiprocessing.cpu_count())
     if jobs <= 1:
         results = [_worker(t) for t in tasks]
@@ -43,7 +57,7 @@ def run_path_rules(ctx, modname, fnname, gcodes, **opts):
     for status, gcode, payload in results:
         if status != 'ok':
             raise AnalysisError('handler %s: %s' % (gcode, payload))
-        per[gcode] = payload.extra.get('abstract_paths', 0)
+        per[gcode] = per.get(gcode, 0) + payload.extra.get('abstract_paths', 0)
         merge_collector(ctx, payload)
     ctx.extra['paths_per_handler'] = per
     return per
